@@ -23,11 +23,12 @@ ASSUMPTIONS = [
 ]
 NAN = float("nan")
 AGGS = ["mean", "median", "min", "max", "std", "variance", "iqr", "range", "count", "sum", "meanabs", "absmean",
-        "change", "abschange", "0.25", "0.9"]
+        "change", "abschange", "0.25", "0.9", "0.975"]
 COQ_AGG = {"mean": "agg_Mean XF", "median": "agg_Median XF", "min": "agg_Min XF", "max": "agg_Max XF", "std": "agg_Std XF",
            "variance": "agg_Variance XF", "iqr": "agg_Iqr XF", "range": "agg_Range XF", "count": "agg_Count XF",
            "sum": "agg_Sum XF", "meanabs": "agg_Meanabs XF", "absmean": "agg_Absmean XF", "change": "agg_Change XF",
-           "abschange": "agg_AbsChange XF", "0.25": "agg_Quantile XF 0.25", "0.9": "agg_Quantile XF 0x1.ccccccccccccdp-1"}
+           "abschange": "agg_AbsChange XF", "0.25": "agg_Quantile XF 0.25", "0.9": "agg_Quantile XF 0x1.ccccccccccccdp-1",
+           "0.975": "agg_Quantile XF 0x1.f333333333333p-1"}      # a level between whole percents
 CLASSES = ["Mae", "Bias", "Diff", "Ratio", "Ef", "StdError", "ObsStdDev", "FcstStdDev", "Rmse", "Rmsf", "Cmae", "Nsec", "Nnsec",
            "Kge", "Alphaindex", "Dmb", "Mbias", "Corr", "RankCorr", "KendallCorr", "DError"]
 
@@ -120,7 +121,7 @@ def oracle(name, o, f, agg="mean"):
             d = oagg(agg, o)
             if d != 0 and abs(d) < 1e-9:
                 return "skip"            # a denominator that is zero only up to rounding (interpolated quantiles): not decidable in floats
-            if d == 0 and agg in ("0.25", "0.9", "iqr"):
+            if d == 0 and agg in ("0.25", "0.9", "0.975", "iqr"):
                 return "skip"            # an exact zero of the oracle's own evaluation of an INTERPOLATED quantile; numpy's lerp may give 4e-16
             return None if d == 0 else oagg(agg, f) / d
         if name == "Ef":
